@@ -18,11 +18,15 @@ mod verif_search {
         let seed = std::env::var("VERIF_SEED").ok().and_then(|s| s.parse::<u64>().ok()).unwrap_or(0) ^ 0x9E3779B97F4A7C15;
         let mut rng = Rng(seed);
         let mut n = 0u64;
-        for round in 0..8 { for empties in 0..32u32 {
+        for round in 0..12 { for empties in 0..32u32 {
             let mut files: Vec<Vec<u8>> = Vec::new();
-            for f in 0..5 { let len = if empties & (1 << f) != 0 { 0 } else { 1 + (rng.next() % 70) as usize }; files.push((0..len).map(|_| rng.next() as u8).collect()); }
+            for f in 0..5 { let len = if empties & (1 << f) != 0 { 0 } else if round >= 8 && f == (round - 8) as usize { 64 * (1 + (rng.next() % 3) as usize) } else { 1 + (rng.next() % 70) as usize }; files.push((0..len).map(|_| rng.next() as u8).collect()); }
             let mut salt = [0u8; 16]; for x in salt.iter_mut() { *x = rng.next() as u8; }
             let mut key = [0u8; 32]; for x in key.iter_mut() { *x = rng.next() as u8; }
+            // special values of the key's domain first: 0, N, N with one bit changed, all-ones, zero bytes at either end; all-zero / all-ones salts
+            match round { 0 => key = [0u8; 32], 1 => key = crate::LARGE_SAFE_PRIME_LITTLE_ENDIAN, 2 => { key = crate::LARGE_SAFE_PRIME_LITTLE_ENDIAN; key[(empties % 32) as usize] ^= 1 << (empties % 8); },
+                          3 => key = [0xff; 32], 4 => { for z in 0..8 { key[31 - z] = 0; } }, 5 => { for z in 0..8 { key[z] = 0; } }, _ => {} }
+            if round == 6 { salt = [0u8; 16]; } if round == 7 { salt = [0xff; 16]; }
             let all: Vec<u8> = files.iter().flatten().copied().collect();
             let want = reference(&all, &salt, &key);
             let w = login_integrity_check_windows(&files[0], &files[1], &files[2], &files[3], &files[4], &salt, &key);
